@@ -441,6 +441,17 @@ func (s *Session) fullVote(vc *voteCtx, kind string, data []byte, bad bool) (*re
 		mut = []string{"seqPlus", "otherPayload", "epochPlus", "chain"}[s.R.Intn(4)]
 	}
 	v, _, _ := s.BuildVote(vc, kind, "x", data, VoteSpec{Marks: marks, Signers: signers, Mut: mut})
+	if s.OddBitmaps && !bad && s.R.Intn(6) == 0 {
+		// a genuine vote whose bitmap lost its trailing zero bytes (its length is no longer a multiple of 8): the reference
+		// implementation refuses it (the bitmap library rejects the length). Only used where outcomes are compared between
+		// executions, never where the driver predicts them.
+		bm := v.Voters
+		for len(bm) > 1 && bm[len(bm)-1] == 0 {
+			bm = bm[:len(bm)-1]
+		}
+		v.Voters = bm
+		return v, false
+	}
 	return v, !bad
 }
 
@@ -722,7 +733,7 @@ func (g *bridgeGen) plan(mode string) (*BlockPlan, error) {
 		plan.Txs = append(plan.Txs, &RelTx{Bytes: bz, Ev: "other", F: Ev{}, BEv: ev, BF: f})
 		return nil
 	}
-	votedUsed := false // at most one genuine voted message per block (the sequence advances)
+	votedUsed := false   // at most one genuine voted message per block (the sequence advances)
 	if g.orphan != nil { // the deposit for the key whose registration was undone a block ago, now on its own
 		d := g.orphan
 		g.orphan = nil
